@@ -262,7 +262,7 @@ def instances(tier):
     # assignment from a score matrix
     for K in (1, 2, 3, 4):
         out.append(score_instance(K, (), 'greedy'))
-    for K in (1, 2, 3) + ((4,) if th else ()):
+    for K in (1, 2, 3):          # K = 4 'optimal': 1e5 paths x 24 permutations, beyond any budget; K <= 6 is bounded in C15
         out.append(score_instance(K, (), 'optimal'))
     out.append(score_instance(2, (2,), 'greedy'))
     out.append(score_instance(2, (2,), 'optimal'))
